@@ -74,9 +74,12 @@ Proof.
   assert (Hb : forall a, 0 <= vrd a < 256) by (intros a; apply Hsrc).
   assert (Hidx : 0 <= start /\ start <= start /\ start <= start /\ start + srcSize < M32)
     by (unfold M32, LZ4_MAX_INPUT_SIZE in *; lia).
-  pose proof (mid_compress_sound vrd lim start start start srcSize cap Hb Hidx Hsz (hc_h4 c) (hc_h8 c) T4 T8) as HS.
-  pose proof (mid_compress_cap vrd lim start start start srcSize cap Hb Hidx Hsz Hcap (hc_h4 c) (hc_h8 c) Hmax T4 T8) as HC.
-  destruct (mid_compress vrd lim start start start srcSize cap (hc_h4 c) (hc_h8 c)) as [h4 h8 hw | ret consumed out h4 h8 hw | ].
+  assert (Hlo : 0 <= start <= start) by lia.
+  assert (Hnd : forall ip f, start <= ip <= mi_mflimit start srcSize -> (fun _ : Z => @None found) ip = Some f -> found_ok vrd start srcSize start ip f)
+    by (intros ip f _ Hx; discriminate Hx).
+  pose proof (mid_compress_sound vrd lim start start start srcSize cap Hb Hidx Hsz start Hlo (fun _ => None) Hnd (hc_h4 c) (hc_h8 c) T4 T8) as HS.
+  pose proof (mid_compress_cap vrd lim start start start srcSize cap Hb Hidx Hsz Hcap start Hlo (fun _ => None) Hnd (hc_h4 c) (hc_h8 c) Hmax T4 T8) as HC.
+  destruct (mid_compress vrd lim start start start srcSize cap (fun _ => None) (hc_h4 c) (hc_h8 c)) as [h4 h8 hw | ret consumed out h4 h8 hw | ].
   - cbn [RCap] in HC. destruct HC as (HC1 & HC2). cbn.
     split; [left; reflexivity|]. split; [exact HC1|]. split; [intros; congruence | lia].
   - cbn [RSpec] in HS. cbn [RCap] in HC. destruct HS as (S1 & S2 & S3 & S4 & S5 & S6 & S7). destruct HC as (C1 & C2).
@@ -117,9 +120,12 @@ Proof.
   assert (Hb : forall a, 0 <= vrd a < 256) by (intros a; apply Hsrc).
   assert (Hidx : 0 <= start /\ start <= start /\ start <= start /\ start + srcSize < M32)
     by (unfold M32, LZ4_MAX_INPUT_SIZE in *; lia).
-  pose proof (mid_compress_sound vrd FillOutput start start start srcSize cap Hb Hidx Hsz (hc_h4 c) (hc_h8 c) T4 T8) as HS.
-  pose proof (mid_compress_fill_strict vrd start start start srcSize cap Hb Hidx Hsz (hc_h4 c) (hc_h8 c) T4 T8) as HF.
-  destruct (mid_compress vrd FillOutput start start start srcSize cap (hc_h4 c) (hc_h8 c)) as [h4 h8 hw | ret consumed out h4 h8 hw | ].
+  assert (Hlo : 0 <= start <= start) by lia.
+  assert (Hnd : forall ip f, start <= ip <= mi_mflimit start srcSize -> (fun _ : Z => @None found) ip = Some f -> found_ok vrd start srcSize start ip f)
+    by (intros ip f _ Hx; discriminate Hx).
+  pose proof (mid_compress_sound vrd FillOutput start start start srcSize cap Hb Hidx Hsz start Hlo (fun _ => None) Hnd (hc_h4 c) (hc_h8 c) T4 T8) as HS.
+  pose proof (mid_compress_fill_strict vrd start start start srcSize cap Hb Hidx Hsz start Hlo (fun _ => None) Hnd (hc_h4 c) (hc_h8 c) T4 T8) as HF.
+  destruct (mid_compress vrd FillOutput start start start srcSize cap (fun _ => None) (hc_h4 c) (hc_h8 c)) as [h4 h8 hw | ret consumed out h4 h8 hw | ].
   - cbn; lia.
   - cbn [RSpec] in HS. cbn [RFill] in HF. destruct HS as (S1 & _).
     cbn [hr_ret hr_out hr_consumed]. intros _.
@@ -221,3 +227,18 @@ Print Assumptions compress_HC_destSize_mid_strict.
 Print Assumptions compress_HC_fastReset_mid_sound.
 Print Assumptions compress_HC_destSize_mid_sound.
 Print Assumptions mid_history_sound.
+
+(* sizes that are negative or above LZ4_MAX_INPUT_SIZE yield 0 (srcSize is an int: |srcSize| <= 2^31) *)
+Theorem compress_HC_fastReset_mid_bad_size c src srcSize cap :
+  -2147483648 <= srcSize < 2147483648 -> (srcSize < 0 \/ LZ4_MAX_INPUT_SIZE < srcSize) ->
+  hr_ret (compress_HC_fastReset_mid c src srcSize cap) = 0.
+Proof.
+  intros Hint Hbad. unfold compress_HC_fastReset_mid.
+  destruct (hc_init_internal (hc_reset_fast c)) as [c1 start].
+  unfold hc_generic_mid.
+  assert (Hu : (u32 srcSize >? LZ4_MAX_INPUT_SIZE) = true).
+  { unfold u32, M32, LZ4_MAX_INPUT_SIZE in *. destruct Hbad as [Hn|Hb]; Z.div_mod_to_equations; lia. }
+  rewrite Hu.
+  destruct (cap <? compressBound srcSize); cbn; reflexivity.
+Qed.
+Print Assumptions compress_HC_fastReset_mid_bad_size.
